@@ -8,8 +8,11 @@
 #include "tree.h"
 
 static const char *UNI[T_MAXU] = { "10-a.conf", "9-b.conf", "B.conf", "README", "a.conf", ".h.conf", ".conf", "x.conf.bak" };
-static const char *EPN[6] = { "econf_readFileWithCallback", "econf_readConfigWithCallback", "econf_readDirsWithCallback", "econf_readDirsHistoryWithCallback",
-                              "econf_readConfigWithCallback + CONFIG_DIRS option", "econf_readConfigWithCallback, drop-ins only (config name NULL)" };
+static const char *EPN[9] = { "econf_readFileWithCallback", "econf_readConfigWithCallback", "econf_readDirsWithCallback", "econf_readDirsHistoryWithCallback",
+                              "econf_readConfigWithCallback + CONFIG_DIRS option", "econf_readConfigWithCallback, drop-ins only (config name NULL)",
+                              "econf_readFileWithCallback, relative file name", "econf_readDirsWithCallback, relative directories", "econf_readDirsHistoryWithCallback, relative directories" };
+#define NEP 9
+static const char *rel0, *rel1;   /* relative spellings of the two directories / the single file */
 static int nu = 3, pairs = 0;
 static char root[300], options[600];
 static char *poison[T_MAXF];
@@ -22,7 +25,8 @@ static void setup(int ep)
   snprintf(root, sizeof root, "%s/r%d", mc_work, ep);
   snprintf(ts.name, sizeof ts.name, "cfg"); snprintf(ts.suffix, sizeof ts.suffix, ".conf");
   ts.ncd = 1; snprintf(ts.cd[0], sizeof ts.cd[0], ".conf.d");
-  ts.nu = ep == 0 ? 0 : nu;
+  ts.nu = (ep == 0 || ep == 6) ? 0 : nu;
+  t_rel_base = NULL;
   for (int i = 0; i < ts.nu; i++) ts.uname[i] = UNI[i];
   if (ep == 1 || ep == 4) {
     ts.nlayers = 3;
@@ -35,12 +39,20 @@ static void setup(int ep)
     for (int l = 0; l < 3; l++) snprintf(ts.layer_dir[l], sizeof ts.layer_dir[l], "%s%s", root, sub[l]);
     snprintf(ts.name, sizeof ts.name, "proj"); snprintf(ts.cd[0], sizeof ts.cd[0], ".d");
     snprintf(options, sizeof options, "ROOT_PREFIX=%s", root);
-  } else if (ep == 0) {
+  } else if (ep == 0 || ep == 6) {
     ts.nlayers = 1; snprintf(ts.layer_dir[0], sizeof ts.layer_dir[0], "%s/single", root);
   } else {
     ts.nlayers = 2;
     snprintf(ts.layer_dir[0], sizeof ts.layer_dir[0], "%s/usr/etc", root);
     snprintf(ts.layer_dir[1], sizeof ts.layer_dir[1], "%s/etc", root);
+  }
+  if (ep >= 6) {
+    /* the caller passes relative names; the working directory is the root of this entry point's tree */
+    static char base[320]; snprintf(base, sizeof base, "%s", root);
+    t_rel_base = base;
+    t_mkdirs(root);
+    if (chdir(root) != 0) mc_die("chdir %s", root);
+    rel0 = ep == 6 ? "single/cfg.conf" : "usr/etc"; rel1 = "etc";
   }
   t_build_contents();
   for (int id = 0; id < ts.nfiles; id++) { free(poison[id]); char b[64]; snprintf(b, sizeof b, "POISON=%d\n[S]\nPOISON=%d\n", id, id); poison[id] = xstrdup(b); }
@@ -50,7 +62,7 @@ static void setup(int ep)
 
 static void gen(void)
 {
-  t_gen_state(&want, mc_tag == 0 ? 2 : mc_tag == 5 ? 1 : 3);
+  t_gen_state(&want, (mc_tag == 0 || mc_tag == 6) ? 2 : mc_tag == 5 ? 1 : 3);
   int list[T_MAXF];
   int n = t_ref_list(&want, list);
   rej1 = mc_choose(n + 1);
@@ -104,6 +116,9 @@ static void exec(void)
   econf_err rc;
   switch (mc_tag) {
   case 0: rc = econf_readFileWithCallback(&kf, t_path[0], "=", "#", cb, &ctx); break;
+  case 6: rc = econf_readFileWithCallback(&kf, rel0, "=", "#", cb, &ctx); break;
+  case 7: rc = econf_readDirsWithCallback(&kf, rel0, rel1, "cfg", "conf", "=", "#", cb, &ctx); break;
+  case 8: rc = econf_readDirsHistoryWithCallback(&hist, &hsize, rel0, rel1, "cfg", "conf", "=", "#", cb, &ctx); break;
   case 1: case 4: case 5:
     rc = econf_newKeyFile_with_options(&own, options);
     if (rc != ECONF_SUCCESS) { mc_fail(sig.s, "options rejected: %d", (int)rc); goto out; }
@@ -118,14 +133,14 @@ static void exec(void)
   {
     int upto = ctx.first_reject ? ctx.first_reject : nlist;
     tree_cblog part = ctx.log; if (part.n > upto) part.n = upto;
-    if (mc_tag == 0 && want.mainst[0] == M_ABSENT) upto = 0;
+    if ((mc_tag == 0 || mc_tag == 6) && want.mainst[0] == M_ABSENT) upto = 0;
     if (t_compare_log(&part, list, upto < nlist ? upto : nlist, &why)) mc_fail(sig.s, "callback sequence: %s; %s", why.s, sig.s);
     for (int i = 0; i < ctx.log.n; i++) if (ctx.log.data[i] != (const void *)&ctx) mc_fail(sig.s, "callback data pointer was not passed through unchanged (call %d)", i + 1);
   }
   if (ctx.first_reject) {
     /* (4) */
     if (rc != ECONF_PARSING_CALLBACK_FAILED) mc_fail(sig.s, "callback rejected call %d but the read returned %d (%s); %s", ctx.first_reject, (int)rc, econf_errString(rc), sig.s);
-    if (mc_tag == 3) {
+    if ((mc_tag == 3 || mc_tag == 8)) {
       if (hist != NULL && hist != SENT_HIST) mc_fail(sig.s, "a history was handed back although the callback rejected a file; %s", sig.s);
     } else if (kf != NULL && kf != SENT_KF) {
       obs_cfg o; sbuf err = {0};
@@ -137,13 +152,14 @@ static void exec(void)
     if (rc != ECONF_NOFILE) mc_fail(sig.s, "no file, rc=%d; %s", (int)rc, sig.s);
   } else if (rc != ECONF_SUCCESS) {
     mc_fail(sig.s, "all files accepted but the read failed with %d (%s); %s", (int)rc, econf_errString(rc), sig.s);
-  } else if (mc_tag == 3) {
+  } else if ((mc_tag == 3 || mc_tag == 8)) {
     /* (1)+(3)+(5) per history member */
     if (hsize != (size_t)nlist) mc_fail(sig.s, "history has %zu members, %d files were consulted; %s", hsize, nlist, sig.s);
     for (size_t i = 0; i < hsize && hist && hist != SENT_HIST; i++) {
       char *p = econf_getPath(hist[i]);
       if (i < (size_t)ctx.log.n && strcmp(p, ctx.log.path[i])) {
         char a[700], b[700]; t_collapse(p, a, sizeof a); t_collapse(ctx.log.path[i], b, sizeof b);
+        if (t_rel_base && i < (size_t)nlist) t_collapse(t_path[list[i]], b, sizeof b);   /* relative names: the history reports the absolute path of the same file */
         if (strcmp(a, b)) mc_fail(sig.s, "history member %zu has path %s, callback was asked about %s", i, p, ctx.log.path[i]);
       }
       free(p);
@@ -179,7 +195,7 @@ static void exec(void)
     sb_free(&err); obs_free(&o);
   }
   /* release */
-  if (mc_tag == 3) {
+  if ((mc_tag == 3 || mc_tag == 8)) {
     if (hist && hist != SENT_HIST) { for (size_t i = 0; i < hsize; i++) econf_freeFile(hist[i]); free(hist); }
   } else if (kf && kf != SENT_KF) econf_freeFile(kf);
 out:
@@ -206,7 +222,7 @@ int main(int argc, char **argv)
     return mc_replay(gen, exec, mc_opt.case_id);
   }
   int complete = 1;
-  for (int ep = 0; ep < 6 && complete; ep++) { mc_tag = ep; setup(ep); complete = mc_explore(gen, exec, 0, 0); }
+  for (int ep = 0; ep < NEP && complete; ep++) { mc_tag = ep; setup(ep); complete = mc_explore(gen, exec, 0, 0); }
   if (complete) mc_st->bound_completed = nu;
   mc_finish();
   return 0;
